@@ -139,6 +139,59 @@ def run(rep):
             if rules:
                 findings.append({'key': 'rules:' + name, 'method': name, 'request': rl[:1500], 'rules': rules,
                                  'what': f'{name}: the proof uses more than the propositional axioms, modus ponens, instantiation and the declared axioms: {rules}'})
+    # ---- the matching variants (outside the straight-line language): "same as the transitivity rule, but one premise is
+    # instantiated to match the other" — oracle: textbook matching on tuples; including the case where the matched side is
+    # closed, so that the only solution is the EMPTY substitution
+    def mfree(depth, ids):
+        r = rng.random()
+        if depth <= 0 or r < 0.3:
+            return rng.choice([pm.phi(i) for i in ids] + [('sym', rng.choice(gen.IDS))]) if ids and rng.random() < 0.6 else ('sym', rng.choice(gen.IDS))
+        return ('imp', mfree(depth - 1, ids), mfree(depth - 1, ids))
+
+    def tinst(p, th):
+        k = p[0]
+        if k == 'mv':
+            return th.get(p[1], p)
+        if k == 'imp':
+            return ('imp', tinst(p[1], th), tinst(p[2], th))
+        return p
+
+    def flat(p):
+        return [p] if p[0] != 'imp' else flat(p[1]) + flat(p[2])
+
+    def equivp(a, b):
+        return neg(('imp', ('imp', a, b), neg(('imp', b, a))))
+    mlines, mexp = [], []
+    for _ in range(40 if quick else 600):
+        ids = rng.choice(((), (0,), (0, 1), (1, 2)))
+        a, b = mfree(2, (0, 1, 2)), mfree(rng.choice((0, 1, 2)), ids)
+        th = {i: mfree(1, ()) for i in ids if pm.phi(i) in flat(b)}      # matching binds exactly the metavariables of the matched side
+        d = mfree(1, (0, 3))
+        which = rng.choice(('imp_trans_match1', 'imp_trans_match2', 'equiv_trans_match1', 'equiv_trans_match2'))
+        if which == 'imp_trans_match1':
+            h1, h2, want = ('imp', a, b), ('imp', tinst(b, th), d), ('imp', tinst(a, {k: v for k, v in th.items()}), d)
+        elif which == 'imp_trans_match2':
+            # h2 = (b -> a) is instantiated so that its antecedent matches h1's consequent
+            h1, h2, want = ('imp', d, tinst(b, th)), ('imp', b, a), ('imp', d, tinst(a, th))
+        elif which == 'equiv_trans_match1':
+            h1, h2, want = equivp(a, b), equivp(tinst(b, th), d), equivp(tinst(a, th), d)
+        else:
+            h1, h2, want = equivp(d, tinst(b, th)), equivp(b, a), equivp(d, tinst(a, th))
+        mlines.append('lemma-real %s () (%s %s)' % (which, sx.pat_to_s(h1), sx.pat_to_s(h2)))
+        mexp.append(sx.pat_to_s(want))
+    mra = core.py_h(mlines)
+    n_match = 0
+    for l, r, e in zip(mlines, mra, mexp):
+        n_match += 1
+        name = l.split()[1]
+        if not r.startswith('(ok'):
+            findings.append({'key': 'match:' + name, 'method': name, 'request': l[:1500], 'python': r[:300], 'expected': e[:600],
+                             'what': f'{name} fails although the premise can be instantiated to match the other one (possibly by the empty substitution): {r[:80]}'})
+            continue
+        x = sx.parse(r)[0]
+        if sx.dump(x[1]) != e or x[2] != 'ok':
+            findings.append({'key': 'match:' + name, 'method': name, 'request': l[:1500], 'python': r[:600], 'expected': e[:600],
+                             'what': f'{name}: conclusion / replay differ from the transitivity rule applied to the matched premises'})
     pr = translemma.gen_lemmas()[0]
     rep.coverage.update({
         'evaluations': len(reqs), 'distinct_nontrivial': len(set(real_lines)),
@@ -147,7 +200,7 @@ def run(rep):
                 'at those arguments; REAL method vs the translated body evaluated on conclusions (Lean) vs the documented schema instantiated '
                 'independently; every returned proof replayed on a StatefulInterpreter (conclusion, stack discipline, rules used); premises of the wrong '
                 'shape: both refuse or agree',
-        'programs': len(index), 'methods_translated': len(index), 'methods_with_schema': n_spec,
+        'programs': len(index), 'matching_variants_checked': n_match, 'methods_translated': len(index), 'methods_with_schema': n_spec,
         'outcomes': {f'{k[0]}:{k[1]}': v for k, v in outcomes.items()}, 'translator_problems': pr,
         'disagreements_checked': len(findings),
         'samples': real_lines[:2],
